@@ -239,6 +239,20 @@ def run_encode(case, v):
     got = env._envgen_format()
     compare_arrays(got, exp, v, 0, 'Env' + repr(
         {k: case[k] for k in ENV_KEYS if k in case}))
+    if not v.items:
+        # the encoding of an envelope object does not depend on what the
+        # object was used for before (its other formats, evaluation)
+        try:
+            env._interpolation_format()
+            env._at(0.25)
+        except Exception:
+            pass        # those uses are judged elsewhere / not at all
+        n0 = len(v.items)
+        compare_arrays(env._envgen_format(), exp, v, 0,
+                       'after other uses of the object: Env' + repr(
+                           {k: case[k] for k in ENV_KEYS if k in case}))
+        for it in v.items[n0:]:
+            it.kind = 'encoding_changes_after_use:' + it.kind
     n = len(exp[0]) // 4 - 1
     return {'nontrivial': n >= 3 and len(set(spec_shapes(case))) >= 2
             and wraps(case),
